@@ -35,6 +35,9 @@ type V struct {
 	L    []V           `json:"l,omitempty"`
 	MK   []string      `json:"mk,omitempty"`
 	Any  bool          `json:"any,omitempty"` // a list handed to the engine as []any even when its elements have one kind
+	// Carrier: how a text is handed to the engine: "" = string, "ptr" = *string, "named" = a named string type,
+	// "ptrnamed" = pointer to one (the engine looks through all of them: same semantics as the plain string)
+	Carrier string `json:"carrier,omitempty"`
 	Safe bool          `json:"-"`
 	Loop *Loop         `json:"-"`
 	Mac  *macroClosure `json:"-"`
@@ -54,6 +57,12 @@ func NilV() V            { return V{K: KNil} }
 func IntV(i int) V       { return V{K: KInt, I: i} }
 func StrV(s string) V    { return V{K: KStr, S: s} }
 func BoolV(b bool) V     { return V{K: KBool, B: b} }
+
+// NamedText is the named string type of the "named" carriers.
+type NamedText string
+
+// StrVia is a text handed over through the given carrier.
+func StrVia(s, carrier string) V { return V{K: KStr, S: s, Carrier: carrier} }
 func FloatV(f float64) V { return V{K: KFloat, F: f} }
 func ListV(l ...V) V     { return V{K: KList, L: l} }
 func ListAnyV(l ...V) V  { return V{K: KList, L: l, Any: true} }
@@ -76,6 +85,16 @@ func (v V) Go() any {
 	case KFloat:
 		return v.F
 	case KStr:
+		switch v.Carrier {
+		case "ptr":
+			s := v.S
+			return &s
+		case "named":
+			return NamedText(v.S)
+		case "ptrnamed":
+			s := NamedText(v.S)
+			return &s
+		}
 		return v.S
 	case KBool:
 		return v.B
